@@ -218,7 +218,8 @@ Qed.
 (* effect of the limiter helpers on the state *)
 
 Definition same_core (k' k : call) : Prop :=
-  abandon k' = abandon k /\ chain k' = chain k /\ ph k' = ph k /\ fut k' = fut k /\ fin k' = fin k.
+  abandon k' = abandon k /\ chain k' = chain k /\ ph k' = ph k /\ fut k' = fut k /\ fin k' = fin k /\
+  wcanc k' = wcanc k /\ ncr k' = ncr k.
 
 Lemma same_core_refl k : same_core k k.
 Proof. unfold same_core. tauto. Qed.
@@ -262,8 +263,8 @@ Proof.
   induction q as [|d r IH]; intros b cs x; cbn [grant_loop]; [apply same_core_refl|].
   destruct (Nat.ltb (length b) tot); [|apply same_core_refl].
   specialize (IH (d :: b) (upd cs d (c_ev (cs d) true)) x).
-  destruct IH as (A1 & A2 & A3 & A4 & A5). unfold same_core.
-  rewrite A1, A2, A3, A4, A5. unfold upd. destruct (Nat.eqb_spec x d) as [->|]; cbn; tauto.
+  destruct IH as (A1 & A2 & A3 & A4 & A5 & A6 & A7). unfold same_core.
+  rewrite A1, A2, A3, A4, A5, A6, A7. unfold upd. destruct (Nat.eqb_spec x d) as [->|]; cbn; tauto.
 Qed.
 
 Lemma grant_loop_L tot q : forall b cs,
@@ -289,7 +290,8 @@ Proof. unfold enter_scope. destruct (idle s); cbn; tauto. Qed.
 Lemma enter_scope_calls s c : exists w,
   calls (enter_scope s c) =
   upd (calls s) c (mkc (abandon (calls s c)) (chain (calls s c)) (PAwait w) FPending
-                       (evset (calls s c)) (wcanc (calls s c)) (fin (calls s c)) (Some w)) /\
+                       (evset (calls s c)) (wcanc (calls s c)) (fin (calls s c)) (Some w)
+                       (ncr (calls s c)) (sfail (calls s c))) /\
   w = hd (nwork s) (idle s).
 Proof. unfold enter_scope. destruct (idle s) as [|w r]; cbn; eexists; split; reflexivity. Qed.
 
@@ -311,6 +313,27 @@ Proof.
     unfold holds, waitq. cbn. tauto.
   - destruct (abandon _); [|tauto]. destruct (fut _); try tauto.
     cbn. unfold upd. destruct (Nat.eqb_spec x c) as [->|]; [|tauto]. unfold holds, waitq. cbn. tauto.
+Qed.
+
+Lemma native_cancel_spec k k1 :
+  native_cancel k = Some k1 ->
+  ph k1 = ph k /\ evset k1 = evset k /\ abandon k1 = abandon k /\ chain k1 = chain k /\ fin k1 = fin k /\
+  sfail k1 = sfail k.
+Proof.
+  unfold native_cancel. destruct (ph k) eqn:Ep; try discriminate.
+  - intros E. injection E as <-. cbn. tauto.
+  - intros E. injection E as <-. cbn. tauto.
+  - destruct (fut k); intros E; injection E as <-; cbn; tauto.
+Qed.
+
+Lemma can_spawn_spec s k :
+  can_spawn s k = true ->
+  idle s = [] /\ wcanc k = false /\ (ph k = PLimYield \/ (ph k = PWaitLim /\ evset k = true)).
+Proof.
+  unfold can_spawn. destruct (idle s); [|discriminate]. cbn [andb].
+  destruct (ph k) eqn:Ep; try discriminate.
+  - destruct (evset k), (wcanc k); cbn; try discriminate. auto.
+  - destruct (wcanc k); cbn; try discriminate. auto.
 Qed.
 
 (* ------------------------------------------------------------------------------------------------ *)
@@ -344,7 +367,7 @@ Qed.
 
 Lemma step_InvL s o : InvL s -> InvL (fst (step s o)).
 Proof.
-  intros HL. destruct o as [c sh|c ab|c|c i|c|w|w p|w|n|w']; cbn [step].
+  intros HL. destruct o as [c sh|c ab|c|c i|c|w|w p|w|n|w'|nc|sf|ra|af]; cbn [step].
   - (* Scope *)
     destruct (ph (calls s c)) eqn:Ep; cbn [fst]; try exact HL.
     unfold InvL, set_calls. cbn [lb lq calls]. apply L_upd_same; [| |exact HL]; unfold holds, waitq; cbn; now rewrite Ep.
@@ -381,12 +404,15 @@ Proof.
         destruct (enter_scope_calls s c) as (w & -> & _).
         apply L_upd_same; [| |exact HL]; unfold holds, waitq; cbn; rewrite Ep, Eev; reflexivity.
     + (* PLimYield *)
+      destruct (wcanc (calls s c)); cbn [fst].
+      { apply release_close; auto. unfold waitq. now rewrite Ep. }
       unfold InvL. destruct (enter_scope_lim s c) as (-> & -> & _).
       destruct (enter_scope_calls s c) as (w & -> & _).
       apply L_upd_same; [| |exact HL]; unfold holds, waitq; cbn; rewrite Ep; reflexivity.
     + (* PAwait *)
       assert (Ew : waitq (calls s c) = false) by (unfold waitq; now rewrite Ep).
-      destruct (fut (calls s c)); cbn [fst]; [exact HL| |]; apply release_close; auto.
+      destruct (fut (calls s c)) as [|o|]; cbn [fst]; [exact HL| |apply release_close; auto].
+      destruct (wcanc (calls s c)); [|destruct o]; cbn [fst]; apply release_close; auto.
     + (* PPostCk *)
       unfold InvL, set_ph, set_calls. cbn [lb lq calls]. apply L_upd_same; [| |exact HL]; unfold holds, waitq; cbn; now rewrite Ep.
   - (* CancelCaller *)
@@ -413,6 +439,19 @@ Proof.
     destruct (grant_loop n (lq s) (lb s) (calls s)) as [[q b] cs]. exact H.
   - (* ThreadReturn *)
     destruct (wk s w'); exact HL.
+  - (* NativeCancel *)
+    destruct (native_cancel (calls s nc)) as [k1|] eqn:En; cbn [fst]; [|exact HL].
+    destruct (native_cancel_spec _ _ En) as (E1 & E2 & _).
+    unfold InvL, set_calls. cbn [lb lq calls]. apply L_upd_same; [| |exact HL]; unfold holds, waitq; now rewrite E1, E2.
+  - (* SpawnFail *)
+    destruct (can_spawn s (calls s sf)) eqn:Ec; cbn [fst]; [|exact HL].
+    destruct (can_spawn_spec _ _ Ec) as (_ & _ & Hp).
+    apply release_close; auto. unfold waitq. destruct Hp as [->|[-> ->]]; reflexivity.
+  - (* ThreadRunAsync *)
+    destruct (wk s ra); exact HL.
+  - (* ArmSpawnFail *)
+    destruct (ph (calls s af)) eqn:Ep; cbn [fst]; try exact HL.
+    unfold InvL, set_calls. cbn [lb lq calls]. apply L_upd_same; [| |exact HL]; unfold holds, waitq; cbn; now rewrite Ep.
 Qed.
 
 (* ------------------------------------------------------------------------------------------------ *)
@@ -435,10 +474,20 @@ Proof.
   cbn. tauto.
 Qed.
 
+Lemma setph_release_total s c p :
+  total (set_ph (release s c) c p) = total s /\ lowered (set_ph (release s c) c p) = lowered s.
+Proof. unfold set_ph, set_calls. cbn [total lowered]. apply release_total. Qed.
+
+Lemma setph_release_len s c p :
+  length (lb (set_ph (release s c) c p)) <= Nat.max (length (lb s)) (total (set_ph (release s c) c p)).
+Proof.
+  destruct (setph_release_total s c p) as [-> _]. unfold set_ph, set_calls. cbn [lb]. apply release_len.
+Qed.
+
 Lemma step_lb_bound s o :
   length (lb (fst (step s o))) <= Nat.max (length (lb s)) (total (fst (step s o))).
 Proof.
-  destruct o as [c sh|c ab|c|c i|c|w|w p|w|n|w']; cbn [step].
+  destruct o as [c sh|c ab|c|c i|c|w|w p|w|n|w'|nc|sf|ra|af]; cbn [step].
   - destruct (ph (calls s c)); cbn; lia.
   - destruct (ph (calls s c)); cbn; lia.
   - destruct (ph (calls s c)) as [| | | |w|o|r]; cbn [fst]; try lia.
@@ -454,9 +503,10 @@ Proof.
         -- cbn. lia.
       * destruct (evset _); cbn [fst]; [|lia].
         destruct (enter_scope_lim s c) as (-> & _ & -> & _). lia.
-    + destruct (enter_scope_lim s c) as (-> & _ & -> & _). lia.
-    + destruct (fut _); cbn [fst]; try lia; unfold set_ph, set_calls; cbn [lb total];
-        pose proof (release_len s c); destruct (release_total s c) as [-> _]; lia.
+    + destruct (wcanc _); cbn [fst]; [apply setph_release_len|].
+      destruct (enter_scope_lim s c) as (-> & _ & -> & _). lia.
+    + destruct (fut _) as [|o|]; cbn [fst]; [lia| |apply setph_release_len].
+      destruct (wcanc _); [|destruct o]; cbn [fst]; apply setph_release_len.
     + cbn. lia.
   - destruct (Nat.ltb _ _); cbn [fst]; [|lia]. destruct (walk _); [|cbn; lia].
     match goal with |- context [deliver ?s1 c] => destruct (deliver_fields s1 c) as (-> & _ & -> & _) end. cbn. lia.
@@ -467,6 +517,10 @@ Proof.
   - pose proof (grant_loop_len n (lq s) (lb s) (calls s)) as H.
     destruct (grant_loop n (lq s) (lb s) (calls s)) as [[q b] cs]. cbn in *. lia.
   - destruct (wk s w'); cbn; lia.
+  - destruct (native_cancel _); cbn; lia.
+  - destruct (can_spawn _ _); cbn [fst]; [apply setph_release_len|lia].
+  - destruct (wk s ra); cbn; lia.
+  - destruct (ph (calls s af)); cbn; lia.
 Qed.
 
 Lemma step_total s o :
@@ -474,7 +528,7 @@ Lemma step_total s o :
              lowered (fst (step s o)) = orb (lowered s) (Nat.ltb n (total s))) \/
   (total (fst (step s o)) = total s /\ lowered (fst (step s o)) = lowered s).
 Proof.
-  destruct o as [c sh|c ab|c|c i|c|w|w p|w|n|w']; cbn [step]; [right|right|right|right|right|right|right|right|left|right].
+  destruct o as [c sh|c ab|c|c i|c|w|w p|w|n|w'|nc|sf|ra|af]; cbn [step]; [right|right|right|right|right|right|right|right|left|right|right|right|right|right].
   - destruct (ph (calls s c)); cbn; tauto.
   - destruct (ph (calls s c)); cbn; tauto.
   - destruct (ph (calls s c)) as [| | | |w|o|r]; cbn [fst]; try tauto.
@@ -483,9 +537,10 @@ Proof.
       * destruct (evset _); [|cbn; tauto]. unfold set_ph, set_calls. cbn [total lowered].
         destruct (release_total (set_lim s (lb s) (remove_c c (lq s))) c) as [-> ->]. cbn. tauto.
       * destruct (evset _); cbn [fst]; [|tauto]. destruct (enter_scope_lim s c) as (_ & _ & -> & -> & _). tauto.
-    + destruct (enter_scope_lim s c) as (_ & _ & -> & -> & _). tauto.
-    + destruct (fut _); cbn [fst]; try tauto; unfold set_ph, set_calls; cbn [total lowered];
-        destruct (release_total s c) as [-> ->]; tauto.
+    + destruct (wcanc _); cbn [fst]; [apply setph_release_total|].
+      destruct (enter_scope_lim s c) as (_ & _ & -> & -> & _). tauto.
+    + destruct (fut _) as [|o|]; cbn [fst]; [tauto| |apply setph_release_total].
+      destruct (wcanc _); [|destruct o]; cbn [fst]; apply setph_release_total.
   - destruct (Nat.ltb _ _); cbn [fst]; [|tauto]. destruct (walk _); [|cbn; tauto].
     match goal with |- context [deliver ?s1 c] => destruct (deliver_fields s1 c) as (_ & _ & -> & -> & _) end. cbn. tauto.
   - destruct (walk _); cbn [fst]; [|tauto]. destruct (deliver_fields s c) as (_ & _ & -> & -> & _). tauto.
@@ -494,6 +549,10 @@ Proof.
   - destruct (wk s w); cbn; tauto.
   - exists n. destruct (grant_loop n (lq s) (lb s) (calls s)) as [[q b] cs]. cbn. tauto.
   - destruct (wk s w'); cbn; tauto.
+  - destruct (native_cancel _); cbn; tauto.
+  - destruct (can_spawn _ _); cbn [fst]; [apply setph_release_total|tauto].
+  - destruct (wk s ra); cbn; tauto.
+  - destruct (ph (calls s af)); cbn; tauto.
 Qed.
 
 Definition InvC (s : st) : Prop := lowered s = false -> length (lb s) <= total s.
@@ -517,20 +576,31 @@ Definition nohas (wkf : wid -> wstate) (c : cid) : Prop := forall w, hasb (wkf w
 
 Definition reported (k : call) (o : outcome) : Prop := exists p, fin k = Some p /\ o = wrap p.
 
+(* why a future may be cancelled: AnyIO cancellation of an abandon_on_cancel call, or a native Task.cancel() *)
+Definition cancel_cause (k : call) : Prop :=
+  (abandon k = true /\ walk (chain k) = true) \/ ncr k = true.
+
+(* run_sync handed o to the caller: the thread's report, or the failure to start a thread *)
+Definition delivered (wkf : wid -> wstate) (c : cid) (k : call) (o : outcome) : Prop :=
+  (fut k = FRes o /\ reported k o /\ nohas wkf c) \/
+  (o = OSpawn /\ fut k = FPending /\ fin k = None /\ nohas wkf c).
+
 Definition callok (wkf : wid -> wstate) (c : cid) (k : call) : Prop :=
   match ph k with
   | PNone | PEntryCk | PWaitLim | PLimYield => fut k = FPending /\ fin k = None /\ nohas wkf c
   | PAwait w =>
+      (wcanc k = true -> ncr k = true) /\
       match fut k with
       | FPending => hasb (wkf w) c = true /\ fin k = None
       | FRes o => reported k o /\ nohas wkf c
-      | FCancelled => abandon k = true /\ walk (chain k) = true
+      | FCancelled => cancel_cause k
       end
-  | PPostCk o => fut k = FRes o /\ reported k o /\ nohas wkf c
+  | PPostCk o => delivered wkf c k o
   | PDone DCancelled =>
       (fut k = FPending /\ fin k = None /\ nohas wkf c) \/
-      (fut k = FCancelled /\ abandon k = true /\ walk (chain k) = true)
-  | PDone (DRet o _) => fut k = FRes o /\ reported k o /\ nohas wkf c
+      (fut k = FCancelled /\ cancel_cause k) \/
+      (exists o, fut k = FRes o /\ reported k o /\ nohas wkf c /\ ncr k = true)
+  | PDone (DRet o _) => delivered wkf c k o
   end.
 
 Definition hasok (w : wid) (k : call) : Prop :=
@@ -551,11 +621,12 @@ Definition W (s : st) : Prop := Wp (wk s) (idle s) (nwork s) (exec s) (calls s).
 
 Lemma callok_core wkf c k k' : same_core k' k -> callok wkf c k -> callok wkf c k'.
 Proof.
-  intros (A1 & A2 & A3 & A4 & A5). unfold callok, reported. rewrite A1, A2, A3, A4, A5. tauto.
+  intros (A1 & A2 & A3 & A4 & A5 & A6 & A7). unfold callok, delivered, cancel_cause, reported.
+  rewrite A1, A2, A3, A4, A5, A6, A7. tauto.
 Qed.
 
 Lemma hasok_core w k k' : same_core k' k -> hasok w k -> hasok w k'.
-Proof. intros (A1 & A2 & A3 & A4 & A5). unfold hasok. rewrite A3, A4. tauto. Qed.
+Proof. intros (A1 & A2 & A3 & A4 & A5 & A6 & A7). unfold hasok. rewrite A3, A4. tauto. Qed.
 
 Lemma Wp_core_ext wkf idl nw ex cs cs' :
   (forall x, same_core (cs' x) (cs x)) -> Wp wkf idl nw ex cs -> Wp wkf idl nw ex cs'.
@@ -668,11 +739,35 @@ Proof.
     + intros x Hx. split; [exact Hx|]. destruct Hwf. lia.
 Qed.
 
+Lemma callok_wk_mono wkf wkf' c k :
+  (forall x, hasb (wkf' x) c = true -> hasb (wkf x) c = true) ->
+  (fut k = FPending -> forall x, hasb (wkf x) c = true -> hasb (wkf' x) c = true) ->
+  callok wkf c k -> callok wkf' c k.
+Proof.
+  intros M1 M2. unfold callok, delivered, nohas.
+  assert (Hn : (forall w, hasb (wkf w) c = false) -> forall w, hasb (wkf' w) c = false).
+  { intros Hold w. destruct (hasb (wkf' w) c) eqn:E; [|reflexivity]. apply M1 in E. now rewrite Hold in E. }
+  assert (Hd : forall o, (fut k = FRes o /\ reported k o /\ (forall w, hasb (wkf w) c = false)) \/
+                         (o = OSpawn /\ fut k = FPending /\ fin k = None /\ (forall w, hasb (wkf w) c = false)) ->
+                         (fut k = FRes o /\ reported k o /\ (forall w, hasb (wkf' w) c = false)) \/
+                         (o = OSpawn /\ fut k = FPending /\ fin k = None /\ (forall w, hasb (wkf' w) c = false))).
+  { intros o [(A & B & C)|(A & B & C & D)]; [left|right]; auto. }
+  destruct (ph k) as [| | | |w|o|r].
+  1-4: (intros (A & B & C); auto).
+  - intros [A0 H]. split; [exact A0|]. destruct (fut k) eqn:Ef.
+    + destruct H as [A B]. split; [|exact B]. now apply M2.
+    + destruct H as [A B]. auto.
+    + exact H.
+  - apply Hd.
+  - destruct r; [|apply Hd].
+    intros [(A & B & C)|[H|(o & A & B & C & D)]]; [left; auto|right; left; exact H|right; right; exists o; auto].
+Qed.
+
 Lemma enter_scope_W s c :
-  W s -> fut (calls s c) = FPending -> fin (calls s c) = None -> nohas (wk s) c ->
+  W s -> fut (calls s c) = FPending -> fin (calls s c) = None -> nohas (wk s) c -> wcanc (calls s c) = false ->
   W (enter_scope s c).
 Proof.
-  intros HW Ef Efi Hn. pose proof (enter_wk_spec s c HW) as S. cbn zeta in S.
+  intros HW Ef Efi Hn Hwc. pose proof (enter_wk_spec s c HW) as S. cbn zeta in S.
   destruct S as (Swf & Sw & Sx & Si & Snd & Sn1 & Sn2 & Sn3).
   destruct (enter_scope_calls s c) as (w & Ec & Ew). rewrite <- Ew in *.
   destruct (enter_scope_lim s c) as (_ & _ & _ & _ & Eex).
@@ -685,21 +780,11 @@ Proof.
     - right. split; [exact Hne|]. destruct (Sx x Hne) as [E|(_ & _ & E)]; rewrite E in Hx; [exact Hx|discriminate]. }
   unfold W. rewrite Ec, Eex. constructor.
   - intros d. unfold upd. destruct (Nat.eqb_spec d c) as [->|Hne].
-    + unfold callok. cbn. rewrite Sw. cbn. rewrite Nat.eqb_refl. auto.
-    + specialize (H1 d). unfold callok in *. unfold nohas in *.
-      assert (Hnh : (forall x, hasb (wk s x) d = false) -> forall x, hasb (wk (enter_scope s c) x) d = false).
-      { intros Hold x. destruct (hasb (wk (enter_scope s c) x) d) eqn:E; [|reflexivity].
-        apply Hhas in E. destruct E as [[_ ->]|[_ E]]; [contradiction|]. now rewrite Hold in E. }
-      destruct (ph (calls s d)) as [| | | |w'|o|r].
-      1-4: (destruct H1 as (A & B & C); auto).
-      * destruct (fut (calls s d)).
-        -- destruct H1 as [A B]. split; [|exact B].
-           assert (w' <> w) by (intros ->; rewrite Swf in A; discriminate).
-           destruct (Sx w' H) as [E|(_ & E & _)]; [now rewrite E|]. rewrite E in A. discriminate.
-        -- destruct H1 as [A B]. auto.
-        -- exact H1.
-      * destruct H1 as (A & B & C); auto.
-      * destruct r; [destruct H1 as [(A & B & C)|H1]; [left; auto|right; exact H1]|destruct H1 as (A & B & C); auto].
+    + unfold callok. cbn. rewrite Sw. cbn. rewrite Nat.eqb_refl. rewrite Hwc. split; [discriminate|auto].
+    + apply (callok_wk_mono (wk s)); [| |apply H1].
+      * intros x Hx. apply Hhas in Hx. destruct Hx as [[_ ->]|[_ Hx]]; [contradiction|exact Hx].
+      * intros _ x Hx. assert (x <> w) by (intros ->; rewrite Swf in Hx; discriminate).
+        destruct (Sx x H) as [E|(_ & E & _)]; [now rewrite E|]. rewrite E in Hx. discriminate.
   - intros x d Hx. apply Hhas in Hx. unfold upd. destruct Hx as [[-> ->]|[Hne Hx]].
     + rewrite Nat.eqb_refl. unfold hasok. cbn. split; [discriminate|reflexivity].
     + destruct (Nat.eqb_spec d c) as [->|Hdc]; [rewrite Hn in Hx; discriminate|]. now apply H2.
@@ -722,7 +807,7 @@ Proof.
 Qed.
 
 Lemma same_core_c_ph k' k p : same_core k' k -> same_core (c_ph k' p) (c_ph k p).
-Proof. intros (A1 & A2 & A3 & A4 & A5). unfold same_core. cbn. tauto. Qed.
+Proof. intros (A1 & A2 & A3 & A4 & A5 & A6 & A7). unfold same_core. cbn. tauto. Qed.
 
 Lemma W_release_set_ph s c p :
   W s -> callok (wk s) c (c_ph (calls s c) p) ->
@@ -736,37 +821,27 @@ Proof.
   - rewrite Ew. intros w Hw. eapply hasok_core; [exact SC|now apply H2].
 Qed.
 
-Lemma callok_wk_mono wkf wkf' c k :
-  (forall x, hasb (wkf' x) c = true -> hasb (wkf x) c = true) ->
-  (fut k = FPending -> forall x, hasb (wkf x) c = true -> hasb (wkf' x) c = true) ->
-  callok wkf c k -> callok wkf' c k.
+
+Lemma cancel_cause_mono k i : cancel_cause k -> cancel_cause (c_chain k (set_cc i (chain k))).
 Proof.
-  intros M1 M2. unfold callok, nohas.
-  assert (Hn : (forall w, hasb (wkf w) c = false) -> forall w, hasb (wkf' w) c = false).
-  { intros Hold w. destruct (hasb (wkf' w) c) eqn:E; [|reflexivity]. apply M1 in E. now rewrite Hold in E. }
-  destruct (ph k) as [| | | |w|o|r].
-  1-4: (intros (A & B & C); auto).
-  - destruct (fut k) eqn:Ef.
-    + intros [A B]. split; [|exact B]. now apply M2.
-    + intros [A B]. auto.
-    + auto.
-  - intros (A & B & C); auto.
-  - destruct r; [intros [(A & B & C)|H]; [left; auto|right; exact H]|intros (A & B & C); auto].
+  unfold cancel_cause. cbn. intros [[A B]|A]; [left; split; [exact A|now apply walk_set_cc_mono]|now right].
 Qed.
 
 Lemma deliver_W s c : W s -> walk (chain (calls s c)) = true -> W (deliver s c).
 Proof.
-  intros HW Hwalk. unfold deliver. destruct (ph (calls s c)) as [| | | |w|o|r] eqn:Ep; try exact HW.
+  intros HW Hwalk. pose proof (W_call _ _ _ _ _ HW c) as Hc. unfold callok in Hc.
+  unfold deliver. destruct (ph (calls s c)) as [| | | |w|o|r] eqn:Ep; try exact HW.
   - destruct (orb _ _); [exact HW|]. unfold W, set_calls. cbn [wk idle nwork exec calls].
-    apply Wp_core_ext with (cs := calls s); [|exact HW].
-    intros x. unfold upd. destruct (Nat.eqb_spec x c) as [->|]; [|apply same_core_refl].
-    unfold same_core. cbn. tauto.
+    apply Wp_upd_call; [exact HW| |].
+    + unfold callok. cbn. rewrite Ep. exact Hc.
+    + intros x Hx. exact (W_has _ _ _ _ _ HW x c Hx).
   - destruct (abandon (calls s c)) eqn:Ea; [|exact HW].
     destruct (fut (calls s c)) eqn:Ef; try exact HW.
     unfold W, set_calls. cbn [wk idle nwork exec calls]. apply Wp_upd_call; [exact HW| |].
-    + unfold callok. cbn. rewrite Ep. auto.
+    + unfold callok, cancel_cause. cbn. rewrite Ep. destruct Hc as [A0 _]. split; [exact A0|left; auto].
     + intros x Hx. unfold hasok. cbn. split; [discriminate|discriminate].
 Qed.
+
 
 (* a worker that dequeues an item whose future is already cancelled moves to a state X that carries no call
    (X = WSkip at HEAD, X = WLost in the pinned tree) *)
@@ -801,7 +876,7 @@ Qed.
 
 Lemma step_W s o : W s -> W (fst (step s o)).
 Proof.
-  intros HW. destruct o as [c sh|c ab|c|c i|c|w|w p|w|n|w']; cbn [step].
+  intros HW. destruct o as [c sh|c ab|c|c i|c|w|w p|w|n|w'|nc|sf|ra|af]; cbn [step].
   - (* Scope *)
     destruct (ph (calls s c)) eqn:Ep; cbn [fst]; try exact HW.
     pose proof (W_call _ _ _ _ _ HW c) as Hc. unfold callok in Hc. rewrite Ep in Hc. destruct Hc as (A & B & C).
@@ -826,23 +901,30 @@ Proof.
            unfold callok. cbn. auto.
     + (* PWaitLim *)
       destruct Hc as (A & B & C).
-      destruct (wcanc (calls s c)); cbn [fst].
+      destruct (wcanc (calls s c)) eqn:Ewc; cbn [fst].
       * assert (HW1 : W (set_lim s (lb s) (remove_c c (lq s)))) by exact HW.
         destruct (evset (calls s c)).
         -- apply W_release_set_ph; [exact HW1| |now apply nohas_hasok]. unfold callok. cbn. auto.
         -- apply W_set_ph; [exact HW1| |now apply nohas_hasok]. unfold callok. cbn. auto.
       * destruct (evset (calls s c)); cbn [fst]; [|exact HW]. now apply enter_scope_W.
     + (* PLimYield *)
-      destruct Hc as (A & B & C). now apply enter_scope_W.
+      destruct Hc as (A & B & C). destruct (wcanc (calls s c)) eqn:Ewc; cbn [fst].
+      * apply W_release_set_ph; [exact HW| |now apply nohas_hasok]. unfold callok. cbn. auto.
+      * now apply enter_scope_W.
     + (* PAwait *)
-      destruct (fut (calls s c)) eqn:Ef; cbn [fst]; [exact HW| |].
-      * destruct Hc as [A B]. apply W_release_set_ph; [exact HW| |now apply nohas_hasok].
-        unfold callok. cbn. auto.
-      * destruct Hc as [A B]. apply W_release_set_ph; [exact HW| |].
-        -- unfold callok. cbn. right. auto.
+      destruct Hc as [A0 Hc].
+      destruct (fut (calls s c)) as [|o|] eqn:Ef; cbn [fst]; [exact HW| |].
+      * destruct Hc as [A B].
+        destruct (wcanc (calls s c)) eqn:Ewc; [|destruct o]; cbn [fst];
+          (apply W_release_set_ph; [exact HW| |now apply nohas_hasok]); unfold callok, delivered; cbn; auto.
+        right. right. exists o. auto.
+      * apply W_release_set_ph; [exact HW| |].
+        -- unfold callok. cbn. right. left. auto.
         -- intros x Hx. unfold hasok. cbn. rewrite Ef. split; discriminate.
     + (* PPostCk *)
-      destruct Hc as (A & B & C). apply W_set_ph; [exact HW| |now apply nohas_hasok]. unfold callok. cbn. auto.
+      apply W_set_ph; [exact HW| |].
+      * unfold callok, delivered in *. cbn. exact Hc.
+      * unfold delivered in Hc. destruct Hc as [(_ & _ & C)|(_ & _ & _ & C)]; now apply nohas_hasok.
   - (* CancelCaller *)
     destruct (Nat.ltb _ _); cbn [fst]; [|exact HW].
     set (k1 := c_chain (calls s c) (set_cc i (chain (calls s c)))).
@@ -850,9 +932,10 @@ Proof.
     { unfold W, set_calls. cbn [wk idle nwork exec calls]. apply Wp_upd_call; [exact HW| |].
       - pose proof (W_call _ _ _ _ _ HW c) as Hc. unfold callok in *. unfold k1. cbn.
         destruct (ph (calls s c)) as [| | | |w|o|r]; try exact Hc.
-        + destruct (fut (calls s c)); try exact Hc. destruct Hc as [A B]. split; [exact A|now apply walk_set_cc_mono].
-        + destruct r; [|exact Hc]. destruct Hc as [Hc|(A & B & C)]; [left; exact Hc|right].
-          refine (conj A (conj B _)). now apply walk_set_cc_mono.
+        + destruct Hc as [A0 Hc]. split; [exact A0|].
+          destruct (fut (calls s c)); try exact Hc. now apply (cancel_cause_mono (calls s c) i).
+        + destruct r; [|exact Hc]. destruct Hc as [Hc|[(A & B)|Hc]]; [left; exact Hc| |right; right; exact Hc].
+          right. left. split; [exact A|now apply (cancel_cause_mono (calls s c) i)].
       - intros x Hx. exact (W_has _ _ _ _ _ HW x c Hx). }
     destruct (walk (chain k1)) eqn:Ew; [|exact H1].
     apply deliver_W; [exact H1|]. cbn [calls set_calls]. now rewrite upd_same.
@@ -909,16 +992,17 @@ Proof.
     destruct (H2 w c Hwc) as [Hnores Hpend].
     unfold W. cbn [wk idle nwork exec calls]. constructor.
     + intros d. unfold upd at 2. destruct (Nat.eqb_spec d c) as [->|Hdc].
-      * pose proof (H1 c) as Hc. unfold callok in *. cbn [ph fut fin abandon chain]. unfold nohas.
+      * pose proof (H1 c) as Hc. unfold callok, delivered, cancel_cause, reported in *.
+        cbn [ph fut fin abandon chain wcanc ncr]. unfold nohas.
         destruct (fut (calls s c)) eqn:Ef.
-        -- rewrite (Hpend eq_refl) in *. split; [exists p; auto|exact Hnoc].
+        -- rewrite (Hpend eq_refl) in *. destruct Hc as [A0 _]. split; [exact A0|]. split; [exists p; auto|exact Hnoc].
         -- exfalso. exact (Hnores o eq_refl).
         -- destruct (ph (calls s c)) as [| | | |w'|o|r].
            1-4: (destruct Hc as (A & _); discriminate).
            ++ exact Hc.
-           ++ destruct Hc as (A & _). discriminate.
-           ++ destruct r; [|destruct Hc as (A & _); discriminate].
-              destruct Hc as [(A & _)|Hc]; [discriminate|right; exact Hc].
+           ++ destruct Hc as [(A & _)|(_ & A & _)]; discriminate.
+           ++ destruct r; [|destruct Hc as [(A & _)|(_ & A & _)]; discriminate].
+              destruct Hc as [(A & _)|[Hc|(o & A & _)]]; [discriminate|right; left; exact Hc|discriminate].
       * apply (callok_wk_mono (wk s)); [intros x Hx; now apply Hmono in Hx| |apply H1].
         intros _ x. now apply Hback.
     + intros x d Hx. destruct (Hmono x d Hx) as [Hne Hx0]. unfold upd at 1.
@@ -960,6 +1044,40 @@ Proof.
     + intros d. rewrite H8. split; intros [x Hx].
       * exists x. rewrite upd_other; [exact Hx|]. intros ->. rewrite Ewk in Hx. discriminate.
       * revert Hx. unfold upd. destruct (Nat.eqb_spec x w') as [->|]; [discriminate|intros Hx; now exists x].
+  - (* NativeCancel *)
+    pose proof (W_call _ _ _ _ _ HW nc) as Hc. unfold callok in Hc.
+    unfold native_cancel. destruct (ph (calls s nc)) as [| | | |w|o|r] eqn:Ep; cbn [fst]; try exact HW.
+    + unfold W, set_calls. cbn [wk idle nwork exec calls]. apply Wp_upd_call; [exact HW| |].
+      * unfold callok. cbn. rewrite ?Ep. exact Hc.
+      * intros x Hx. exact (W_has _ _ _ _ _ HW x nc Hx).
+    + unfold W, set_calls. cbn [wk idle nwork exec calls]. apply Wp_upd_call; [exact HW| |].
+      * unfold callok. cbn. rewrite ?Ep. exact Hc.
+      * intros x Hx. exact (W_has _ _ _ _ _ HW x nc Hx).
+    + destruct Hc as [A0 Hc].
+      destruct (fut (calls s nc)) as [|o|] eqn:Ef; cbn [fst];
+        unfold W, set_calls; cbn [wk idle nwork exec calls]; (apply Wp_upd_call; [exact HW| |]).
+      * unfold callok, cancel_cause. cbn. rewrite ?Ep. split; [reflexivity|now right].
+      * intros x Hx. unfold hasok. cbn. split; discriminate.
+      * unfold callok, reported. cbn. rewrite ?Ep, ?Ef. split; [reflexivity|exact Hc].
+      * intros x Hx. destruct Hc as [_ Hn]. rewrite Hn in Hx. discriminate.
+      * unfold callok, cancel_cause. cbn. rewrite ?Ep, ?Ef. split; [reflexivity|now right].
+      * intros x Hx. unfold hasok. cbn. split; discriminate.
+  - (* SpawnFail *)
+    destruct (can_spawn s (calls s sf)) eqn:Ec; cbn [fst]; [|exact HW].
+    destruct (can_spawn_spec _ _ Ec) as (_ & _ & Hp).
+    pose proof (W_call _ _ _ _ _ HW sf) as Hc. unfold callok in Hc.
+    assert (Hc3 : fut (calls s sf) = FPending /\ fin (calls s sf) = None /\ nohas (wk s) sf).
+    { destruct Hp as [E|[E _]]; rewrite E in Hc; exact Hc. }
+    destruct Hc3 as (A & B & C).
+    apply W_release_set_ph; [exact HW| |now apply nohas_hasok].
+    unfold callok, delivered. cbn. right. auto.
+  - (* ThreadRunAsync *)
+    destruct (wk s ra); exact HW.
+  - (* ArmSpawnFail *)
+    destruct (ph (calls s af)) eqn:Ep; cbn [fst]; try exact HW.
+    pose proof (W_call _ _ _ _ _ HW af) as Hc. unfold callok in Hc. rewrite Ep in Hc. destruct Hc as (A & B & C).
+    unfold W, set_calls. cbn [wk idle nwork exec calls]. apply Wp_upd_call; [exact HW| |now apply nohas_hasok].
+    unfold callok. cbn. rewrite ?Ep. auto.
 Qed.
 
 (* ------------------------------------------------------------------------------------------------ *)
@@ -1002,12 +1120,13 @@ Proof.
   destruct HL as (_ & _ & Hb & _). apply Hb. unfold holds. now rewrite Hp.
 Qed.
 
-(* 2. hence the number of concurrently executing, non-abandoned functions never exceeds the number of borrowed
-      tokens, which never exceeds the total as long as the total was not lowered *)
+(* 2. hence the number of concurrently executing functions whose caller still waits never exceeds the number of
+      borrowed tokens - and the total whenever the limiter is not over-full (it can only be over-full after the total
+      was lowered below the number of borrowers, see rs_no_grant_while_full) *)
 Theorem rs_running_le_total tot pr s :
   reach tot pr s ->
   length (running_live s) <= length (lb s) /\
-  (lowered s = false -> length (running_live s) <= total s).
+  (length (lb s) <= total s -> length (running_live s) <= total s).
 Proof.
   intros R. destruct (reach_inv _ _ _ R) as (HL & HC & HW).
   assert (H : length (running_live s) <= length (lb s)).
@@ -1015,19 +1134,102 @@ Proof.
     - unfold running_live. apply NoDup_filter. apply (W_exec_nd _ _ _ _ _ HW).
     - intros c Hc. unfold running_live in Hc. apply filter_In in Hc. destruct Hc as [Hin Hl].
       apply (rs_token_held_while_running tot pr s c R Hin Hl). }
-  split; [exact H|]. intros Hlow. specialize (HC Hlow). lia.
+  split; [exact H|]. intros Hle. lia.
 Qed.
 
-(* 3. the token is back on every exit path *)
+(* 2b. while the limiter is full nothing is granted beyond hand-over; while it is OVER-full (total lowered below the
+       number of borrowers) no new borrower appears at all: the excess only drains *)
+Lemma remove_c_len_nodup c l : NoDup l -> length l <= S (length (remove_c c l)).
+Proof.
+  induction l as [|a r IH]; intros Hn; [cbn; lia|]. inversion Hn as [|x l' Hx Hl]; subst.
+  unfold remove_c. cbn [filter length]. fold (remove_c c r).
+  destruct (Nat.eqb_spec a c) as [->|Hne]; cbn [negb length].
+  - rewrite remove_c_notin by exact Hx. lia.
+  - specialize (IH Hl). lia.
+Qed.
+
+Lemma notify_full s : total s <= length (lb s) -> lb (notify s) = lb s.
+Proof.
+  intros H. unfold notify. destruct (lq s); [reflexivity|].
+  destruct (Nat.ltb_spec (length (lb s)) (total s)); [lia|reflexivity].
+Qed.
+
+Lemma release_incl s c : NoDup (lb s) -> total s < length (lb s) -> incl (lb (release s c)) (lb s).
+Proof.
+  intros Hn Hlt. unfold release. rewrite notify_full.
+  - cbn [lb set_lim]. intros x Hx. apply in_remove_c in Hx. tauto.
+  - cbn [lb total set_lim]. pose proof (remove_c_len_nodup c (lb s) Hn). lia.
+Qed.
+
+Lemma setph_release_incl s c p :
+  NoDup (lb s) -> total (set_ph (release s c) c p) < length (lb s) -> incl (lb (set_ph (release s c) c p)) (lb s).
+Proof.
+  intros Hn. destruct (setph_release_total s c p) as [-> _]. unfold set_ph, set_calls. cbn [lb]. now apply release_incl.
+Qed.
+
+Lemma grant_loop_full tot q b cs : tot <= length b -> grant_loop tot q b cs = (q, b, cs).
+Proof. intros H. destruct q; cbn [grant_loop]; [reflexivity|]. destruct (Nat.ltb_spec (length b) tot); [lia|reflexivity]. Qed.
+
+Theorem rs_no_grant_while_full tot pr s o :
+  reach tot pr s ->
+  (total (fst (step s o)) <= length (lb s) -> length (lb (fst (step s o))) <= length (lb s)) /\
+  (total (fst (step s o)) < length (lb s) -> incl (lb (fst (step s o))) (lb s)).
+Proof.
+  intros R. split; [pose proof (step_lb_bound s o); lia|].
+  destruct (reach_inv _ _ _ R) as (HL & _ & _). destruct HL as (Hn & _).
+  destruct o as [c sh|c ab|c|c i|c|w|w p|w|n|w'|nc|sf|ra|af]; cbn [step].
+  - destruct (ph (calls s c)); cbn; intros _; apply incl_refl.
+  - destruct (ph (calls s c)); cbn; intros _; apply incl_refl.
+  - destruct (ph (calls s c)) as [| | | |w|o|r]; cbn [fst]; try (intros _; apply incl_refl).
+    + destruct (walk _); cbn [fst]; [cbn; intros _; apply incl_refl|].
+      destruct (lq s) as [|x q]; cbn [negb orb].
+      * destruct (Nat.leb_spec (total s) (length (lb s))); cbn; intros H0; [apply incl_refl|lia].
+      * cbn. intros _. apply incl_refl.
+    + destruct (wcanc _); cbn [fst].
+      * destruct (evset _); [|cbn; intros _; apply incl_refl].
+        apply (setph_release_incl (set_lim s (lb s) (remove_c c (lq s))) c). exact Hn.
+      * destruct (evset _); cbn [fst]; [|intros _; apply incl_refl].
+        destruct (enter_scope_lim s c) as (-> & _). intros _. apply incl_refl.
+    + destruct (wcanc _); cbn [fst]; [now apply setph_release_incl|].
+      destruct (enter_scope_lim s c) as (-> & _). intros _. apply incl_refl.
+    + destruct (fut _) as [|o|]; cbn [fst]; [intros _; apply incl_refl| |now apply setph_release_incl].
+      destruct (wcanc _); [|destruct o]; cbn [fst]; now apply setph_release_incl.
+  - destruct (Nat.ltb _ _); cbn [fst]; [|intros _; apply incl_refl]. destruct (walk _); [|cbn; intros _; apply incl_refl].
+    match goal with |- context [deliver ?s1 c] => destruct (deliver_fields s1 c) as (-> & _) end. cbn. intros _. apply incl_refl.
+  - destruct (walk _); cbn [fst]; [|intros _; apply incl_refl]. destruct (deliver_fields s c) as (-> & _). intros _. apply incl_refl.
+  - destruct (wk s w); cbn [fst]; try (intros _; apply incl_refl). destruct (fut _); cbn; intros _; apply incl_refl.
+  - destruct (wk s w); cbn; intros _; apply incl_refl.
+  - destruct (wk s w); cbn; intros _; apply incl_refl.
+  - destruct (Nat.le_gt_cases n (length (lb s))) as [Hle|Hgt].
+    + rewrite (grant_loop_full n (lq s) (lb s) (calls s) Hle). cbn. intros _. apply incl_refl.
+    + destruct (grant_loop n (lq s) (lb s) (calls s)) as [[q b] cs]. cbn. lia.
+  - destruct (wk s w'); cbn; intros _; apply incl_refl.
+  - destruct (native_cancel _); cbn; intros _; apply incl_refl.
+  - destruct (can_spawn _ _); cbn [fst]; [now apply setph_release_incl|intros _; apply incl_refl].
+  - destruct (wk s ra); cbn; intros _; apply incl_refl.
+  - destruct (ph (calls s af)); cbn; intros _; apply incl_refl.
+Qed.
+
+(* the literal reading "total <= |lb| -> incl lb' lb" is false: at exactly full a release hands the token over *)
+Example ex_handover_at_full :
+  let s := final step (init 1 false) [Call 0 false; Resume 0; Resume 0; ThreadStart 0; Call 1 false; Resume 1;
+                                      ThreadFinish 0 (PVal 0)] in
+  total s = 1 /\ lb s = [0] /\ lb (fst (step s (Resume 0))) = [1].
+Proof. vm_compute. auto. Qed.
+
+(* 3. the token is back on every exit path: return, raise, BaseException, the function's own CancelledError, cancelled at
+      the entry checkpoint, cancelled (AnyIO or natively) in the wait queue with or without a grant, natively cancelled
+      in the limiter's shielded checkpoint or while awaiting the result, abandoned, thread start failure *)
 Theorem rs_token_released_all_paths tot pr s :
   reach tot pr s ->
   NoDup (lb s) /\ (forall c, In c (lb s) <-> holds (calls s c) = true) /\
-  (forall c r, ph (calls s c) = PDone r -> ~ In c (lb s) /\ ~ In c (lq s)) /\
+  (forall c, (exists r, ph (calls s c) = PDone r) \/ (exists o, ph (calls s c) = PPostCk o) ->
+             ~ In c (lb s) /\ ~ In c (lq s)) /\
   ((forall c, ph (calls s c) = PNone \/ exists r, ph (calls s c) = PDone r) -> lb s = [] /\ lq s = []).
 Proof.
   intros R. destruct (reach_inv _ _ _ R) as (HL & _ & _). destruct HL as (Hb & Hq & H1 & H2).
   refine (conj Hb (conj H1 (conj _ _))).
-  - intros c r Hp. rewrite H1, H2. unfold holds, waitq. rewrite Hp. split; discriminate.
+  - intros c [[r Hp]|[o Hp]]; rewrite H1, H2; unfold holds, waitq; rewrite Hp; split; discriminate.
   - intros Hall. split.
     + destruct (lb s) as [|c l]; [reflexivity|]. exfalso.
       assert (Hc : holds (calls s c) = true) by (apply H1; now left).
@@ -1037,63 +1239,88 @@ Proof.
       unfold waitq in Hc. destruct (Hall c) as [E|[r E]]; rewrite E in Hc; discriminate.
 Qed.
 
+(* every way out of a token-holding phase releases: the step that leaves PLimYield / granted PWaitLim / PAwait for a
+   phase outside the call scope removes the caller from the borrowers *)
+Theorem rs_exit_steps_release tot pr s o c :
+  reach tot pr s -> holds (calls s c) = true -> holds (calls (fst (step s o)) c) = false ->
+  In c (lb s) /\ ~ In c (lb (fst (step s o))).
+Proof.
+  intros R H0 H1. destruct (reach_inv _ _ _ R) as (HL & _ & _).
+  pose proof (step_InvL s o HL) as HL'. destruct HL as (_ & _ & A & _). destruct HL' as (_ & _ & A' & _).
+  split; [now apply A|]. rewrite A', H1. discriminate.
+Qed.
+
 (* 4. faithful results *)
-Lemma fut_cancelled_only_abandoned tot pr s c :
-  reach tot pr s -> fut (calls s c) = FCancelled -> abandon (calls s c) = true /\ walk (chain (calls s c)) = true.
+Lemma fut_cancelled_cause tot pr s c :
+  reach tot pr s -> fut (calls s c) = FCancelled -> cancel_cause (calls s c).
 Proof.
   intros R Ef. destruct (reach_inv _ _ _ R) as (_ & _ & HW).
-  pose proof (W_call _ _ _ _ _ HW c) as Hc. unfold callok in Hc. rewrite Ef in Hc.
+  pose proof (W_call _ _ _ _ _ HW c) as Hc. unfold callok, delivered in Hc. rewrite Ef in Hc.
   destruct (ph (calls s c)) as [| | | |w|o|r].
   1-4: (destruct Hc as (A & _); discriminate).
-  - exact Hc.
-  - destruct Hc as (A & _). discriminate.
-  - destruct r; [|destruct Hc as (A & _); discriminate].
-    destruct Hc as [(A & _)|(_ & A)]; [discriminate|exact A].
+  - apply Hc.
+  - destruct Hc as [(A & _)|(_ & A & _)]; discriminate.
+  - destruct r; [|destruct Hc as [(A & _)|(_ & A & _)]; discriminate].
+    destruct Hc as [(A & _)|[(_ & A)|(o & A & _)]]; [discriminate|exact A|discriminate].
 Qed.
+
+Lemma wrap_not_spawn p : wrap p <> OSpawn.
+Proof. destruct p; discriminate. Qed.
 
 Theorem rs_result_faithful tot pr s c :
   reach tot pr s ->
-  (* what the caller got is what the thread reported *)
+  (* what the caller got is what the thread reported - or, if no thread could be started, nothing was ever run *)
   (forall o, (ph (calls s c) = PPostCk o \/ exists b, ph (calls s c) = PDone (DRet o b)) ->
-             exists p, fin (calls s c) = Some p /\ o = wrap p) /\
+             (exists p, fin (calls s c) = Some p /\ o = wrap p) \/ (o = OSpawn /\ fin (calls s c) = None)) /\
   (forall s' o, step s (Resume c) = (s', RRet o) ->
-             (exists p, fin (calls s c) = Some p /\ o = wrap p) /\ ph (calls s' c) = PPostCk o) /\
-  (* a finished function's result is dropped only if the call was abandoned and its caller cancelled *)
+             (exists p, fin (calls s c) = Some p /\ o = wrap p) /\
+             ph (calls s' c) = (match o with OCancelled => PDone (DRet OCancelled false) | _ => PPostCk o end)) /\
+  (* a finished function's result is dropped only if the call was abandoned and its caller cancelled - or the caller was
+     cancelled natively while inside the call scope *)
   (forall p, ph (calls s c) = PDone DCancelled -> fin (calls s c) = Some p ->
-             abandon (calls s c) = true /\ walk (chain (calls s c)) = true) /\
+             (abandon (calls s c) = true /\ walk (chain (calls s c)) = true) \/ ncr (calls s c) = true) /\
   (* and a report for a caller that still waits always reaches the future *)
   (forall w p, wk s w = WExec c -> abandon (calls s c) = false \/ walk (chain (calls s c)) = false ->
+             ncr (calls s c) = false ->
              fut (calls (fst (step s (ThreadFinish w p))) c) = FRes (wrap p)).
 Proof.
   intros R. destruct (reach_inv _ _ _ R) as (_ & _ & HW).
-  pose proof (W_call _ _ _ _ _ HW c) as Hc. unfold callok in Hc.
+  pose proof (W_call _ _ _ _ _ HW c) as Hc. unfold callok, delivered in Hc.
   refine (conj _ (conj _ (conj _ _))).
-  - intros o [E|[b E]]; rewrite E in Hc; destruct Hc as (_ & A & _); exact A.
+  - intros o [E|[b E]]; rewrite E in Hc; (destruct Hc as [(_ & A & _)|(A & _ & B & _)]; [left; exact A|right; auto]).
   - intros s' o. cbn [step]. destruct (ph (calls s c)) as [| | | |w|o'|r] eqn:Ep; try discriminate.
     + destruct (walk _); [discriminate|]. destruct (orb _ _); discriminate.
     + destruct (wcanc _); [discriminate|]. destruct (evset _); discriminate.
-    + destruct (fut (calls s c)) eqn:Ef; try discriminate.
-      intros E. injection E as <- <-. split; [apply Hc|].
-      unfold set_ph, set_calls. cbn [calls]. rewrite upd_same. reflexivity.
+    + destruct (wcanc _); discriminate.
+    + destruct Hc as [_ Hc]. destruct (fut (calls s c)) as [|o1|] eqn:Ef; try discriminate.
+      destruct (wcanc _); [discriminate|].
+      destruct o1; intros E; injection E as <- <-; (split; [apply Hc|]);
+        unfold set_ph, set_calls; cbn [calls]; rewrite upd_same; reflexivity.
     + destruct (walk _); discriminate.
-  - intros p E Ef. rewrite E in Hc. destruct Hc as [(_ & A & _)|(_ & A)]; [congruence|exact A].
-  - intros w p Ew Hor. cbn [step]. rewrite Ew. cbn [fst calls]. rewrite upd_same. cbn [fut].
+  - intros p E Ef. rewrite E in Hc. destruct Hc as [(_ & A & _)|[(_ & A)|(o & _ & _ & _ & A)]]; [congruence|exact A|now right].
+  - intros w p Ew Hor Hn. cbn [step]. rewrite Ew. cbn [fst calls]. rewrite upd_same. cbn [fut].
     assert (Hh : hasb (wk s w) c = true) by (rewrite Ew; cbn; apply Nat.eqb_refl).
     destruct (W_has _ _ _ _ _ HW w c Hh) as [Hnr _].
     destruct (fut (calls s c)) eqn:Ef; [reflexivity|exfalso; exact (Hnr o eq_refl)|].
-    destruct (fut_cancelled_only_abandoned tot pr s c R Ef) as [A B]. destruct Hor; congruence.
+    destruct (fut_cancelled_cause tot pr s c R Ef) as [[A B]|A]; [destruct Hor; congruence|congruence].
 Qed.
+
+Lemma fin_release s x c : fin (calls (release s x) c) = fin (calls s c).
+Proof. destruct (release_core s x c) as (_ & _ & _ & _ & E & _). exact E. Qed.
+
+Lemma fin_set_ph s d p0 c : fin (calls (set_ph s d p0) c) = fin (calls s c).
+Proof. unfold set_ph, set_calls. cbn. unfold upd. destruct (Nat.eqb_spec c d) as [->|]; reflexivity. Qed.
 
 (* the ghost `fin` is written by ThreadFinish only, with the payload of that op *)
 Lemma fin_written_by_finish s o c p :
   fin (calls (fst (step s o)) c) = Some p ->
   fin (calls s c) = Some p \/ exists w, o = ThreadFinish w p /\ wk s w = WExec c.
 Proof.
-  destruct o as [d sh|d ab|d|d i|d|w|w q|w|n|w']; cbn [step].
+  destruct o as [d sh|d ab|d|d i|d|w|w q|w|n|w'|nc|sf|ra|af]; cbn [step].
   - destruct (ph (calls s d)); cbn [fst]; auto. cbn. unfold upd. destruct (Nat.eqb_spec c d) as [->|]; auto.
   - destruct (ph (calls s d)); cbn [fst]; auto. cbn. unfold upd. destruct (Nat.eqb_spec c d) as [->|]; auto. discriminate.
   - assert (Hrel : forall s0 x, fin (calls (release s0 x) c) = fin (calls s0 c)).
-    { intros s0 x. destruct (release_core s0 x c) as (_ & _ & _ & _ & E). exact E. }
+    { intros s0 x. destruct (release_core s0 x c) as (_ & _ & _ & _ & E & _). exact E. }
     assert (Hent : fin (calls (enter_scope s d) c) = fin (calls s c)).
     { destruct (enter_scope_calls s d) as (w & -> & _). unfold upd. destruct (Nat.eqb_spec c d) as [->|]; reflexivity. }
     assert (Hsp : forall s0 ph0, fin (calls (set_ph s0 d ph0) c) = fin (calls s0 c)).
@@ -1105,8 +1332,8 @@ Proof.
     + destruct (wcanc _); cbn [fst].
       * rewrite Hsp. destruct (evset _); [rewrite Hrel|]; auto.
       * destruct (evset _); cbn [fst]; [rewrite Hent|]; auto.
-    + rewrite Hent. auto.
-    + destruct (fut _); cbn [fst]; auto; rewrite Hsp, Hrel; auto.
+    + destruct (wcanc _); cbn [fst]; [rewrite Hsp, Hrel|rewrite Hent]; auto.
+    + destruct (fut _) as [|o|]; cbn [fst]; auto; [destruct (wcanc _); [|destruct o]; cbn [fst]|]; rewrite Hsp, Hrel; auto.
     + rewrite Hsp. auto.
   - destruct (Nat.ltb _ _); cbn [fst]; auto.
     assert (Hd : forall s0, fin (calls (deliver s0 d) c) = fin (calls s0 c)).
@@ -1124,8 +1351,14 @@ Proof.
   - destruct (wk s w); cbn; auto.
   - pose proof (grant_loop_core n (lq s) (lb s) (calls s) c) as H.
     destruct (grant_loop n (lq s) (lb s) (calls s)) as [[q b] cs]. cbn in *.
-    destruct H as (_ & _ & _ & _ & ->). auto.
+    destruct H as (_ & _ & _ & _ & -> & _). auto.
   - destruct (wk s w'); cbn; auto.
+  - destruct (native_cancel (calls s nc)) as [k1|] eqn:En; cbn [fst]; auto. cbn. unfold upd.
+    destruct (Nat.eqb_spec c nc) as [->|]; auto.
+    destruct (native_cancel_spec _ _ En) as (_ & _ & _ & _ & -> & _). auto.
+  - destruct (can_spawn _ _); cbn [fst]; auto. rewrite fin_set_ph, fin_release. auto.
+  - destruct (wk s ra); cbn; auto.
+  - destruct (ph (calls s af)); cbn [fst]; auto. cbn. unfold upd. destruct (Nat.eqb_spec c af) as [->|]; auto.
 Qed.
 
 (* ------------------------------------------------------------------------------------------------ *)
@@ -1133,8 +1366,8 @@ Qed.
 
 Lemma same_core_trans k1 k2 k3 : same_core k1 k2 -> same_core k2 k3 -> same_core k1 k3.
 Proof.
-  intros (A1 & A2 & A3 & A4 & A5) (B1 & B2 & B3 & B4 & B5). unfold same_core.
-  rewrite A1, A2, A3, A4, A5. tauto.
+  intros (A1 & A2 & A3 & A4 & A5 & A6 & A7) (B1 & B2 & B3 & B4 & B5 & B6 & B7). unfold same_core.
+  rewrite A1, A2, A3, A4, A5, A6, A7. tauto.
 Qed.
 
 Lemma set_ph_other s d p c : c <> d -> calls (set_ph s d p) c = calls s c.
@@ -1163,18 +1396,19 @@ Proof.
       eapply same_core_trans; [apply release_core|apply same_core_refl].
     + destruct (evset _); cbn [fst]; [|apply same_core_refl].
       rewrite enter_scope_other by exact Hne. apply same_core_refl.
-  - rewrite enter_scope_other by exact Hne. apply same_core_refl.
-  - destruct (fut _); cbn [fst]; try apply same_core_refl;
-      rewrite set_ph_other by exact Hne; apply release_core.
+  - destruct (wcanc _); cbn [fst]; [rewrite set_ph_other by exact Hne; apply release_core|].
+    rewrite enter_scope_other by exact Hne. apply same_core_refl.
+  - destruct (fut _) as [|o|]; cbn [fst]; try apply same_core_refl;
+      [destruct (wcanc _); [|destruct o]; cbn [fst]|]; rewrite set_ph_other by exact Hne; apply release_core.
   - rewrite set_ph_other by exact Hne. apply same_core_refl.
 Qed.
 
 (* once run_sync has been entered, only the caller's own resumption changes its phase *)
 Lemma step_keeps_phase s o c :
-  o <> Resume c -> ph (calls s c) <> PNone ->
+  o <> Resume c -> (o = SpawnFail c -> can_spawn s (calls s c) = false) -> ph (calls s c) <> PNone ->
   ph (calls (fst (step s o)) c) = ph (calls s c) /\ abandon (calls (fst (step s o)) c) = abandon (calls s c).
 Proof.
-  intros Ho Hp. destruct o as [d sh|d ab|d|d i|d|w|w q|w|n|w']; cbn [step].
+  intros Ho Hsf Hp. destruct o as [d sh|d ab|d|d i|d|w|w q|w|n|w'|nc|sf|ra|af]; cbn [step].
   - destruct (Nat.eq_dec c d) as [<-|Hne].
     + destruct (ph (calls s c)) eqn:E; cbn [fst]; tauto.
     + destruct (ph (calls s d)); cbn [fst]; try tauto. cbn. rewrite upd_other by exact Hne. tauto.
@@ -1205,41 +1439,200 @@ Proof.
     destruct (grant_loop n (lq s) (lb s) (calls s)) as [[q b] cs]. cbn in *.
     destruct H as (-> & _ & -> & _). tauto.
   - destruct (wk s w'); cbn; tauto.
+  - destruct (native_cancel (calls s nc)) as [k1|] eqn:En; cbn [fst]; [|tauto]. cbn. unfold upd.
+    destruct (Nat.eqb_spec c nc) as [->|]; [|tauto].
+    destruct (native_cancel_spec _ _ En) as (-> & _ & -> & _). tauto.
+  - destruct (can_spawn s (calls s sf)) eqn:Ec; cbn [fst]; [|tauto].
+    destruct (Nat.eq_dec c sf) as [->|Hne].
+    + rewrite (Hsf eq_refl) in Ec. discriminate.
+    + rewrite set_ph_other by exact Hne. destruct (release_core s sf c) as (-> & _ & -> & _). tauto.
+  - destruct (wk s ra); cbn; tauto.
+  - destruct (ph (calls s af)) eqn:E; cbn [fst]; try tauto. cbn. unfold upd. destruct (Nat.eqb_spec c af) as [->|]; cbn; tauto.
 Qed.
 
-(* 5. without abandon_on_cancel the caller is not interrupted between the start of the call scope and the report *)
+(* the ghost `ncr` is set by a native cancellation that hits the caller inside the call scope, by nothing else *)
+Lemma native_cancel_ncr k k1 :
+  native_cancel k = Some k1 -> ncr k1 = true -> ncr k = true \/ inside k = true.
+Proof.
+  unfold native_cancel, inside. destruct (ph k) eqn:Ep; try discriminate.
+  - intros E. injection E as <-. cbn. auto.
+  - intros E. injection E as <-. cbn. auto.
+  - auto.
+Qed.
+
+Lemma ncr_release s x c : ncr (calls (release s x) c) = ncr (calls s c).
+Proof. destruct (release_core s x c) as (_ & _ & _ & _ & _ & _ & E). exact E. Qed.
+
+Lemma ncr_set_ph s d p0 c : ncr (calls (set_ph s d p0) c) = ncr (calls s c).
+Proof. unfold set_ph, set_calls. cbn. unfold upd. destruct (Nat.eqb_spec c d) as [->|]; reflexivity. Qed.
+
+Lemma ncr_set_by_native s o c :
+  ncr (calls (fst (step s o)) c) = true ->
+  ncr (calls s c) = true \/ (o = NativeCancel c /\ inside (calls s c) = true).
+Proof.
+  destruct o as [d sh|d ab|d|d i|d|w|w q|w|n|w'|nc|sf|ra|af]; cbn [step].
+  - destruct (ph (calls s d)); cbn [fst]; auto. cbn. unfold upd. destruct (Nat.eqb_spec c d) as [->|]; auto.
+  - destruct (ph (calls s d)); cbn [fst]; auto. cbn. unfold upd. destruct (Nat.eqb_spec c d) as [->|]; auto. discriminate.
+  - assert (Hent : ncr (calls (enter_scope s d) c) = ncr (calls s c)).
+    { destruct (enter_scope_calls s d) as (w & -> & _). unfold upd. destruct (Nat.eqb_spec c d) as [->|]; reflexivity. }
+    destruct (ph (calls s d)) as [| | | |w|o|r]; cbn [fst]; auto.
+    + destruct (walk _); cbn [fst]; [rewrite ncr_set_ph; auto|]. destruct (orb _ _); cbn [fst].
+      * cbn. unfold upd. destruct (Nat.eqb_spec c d) as [->|]; auto.
+      * rewrite ncr_set_ph. auto.
+    + destruct (wcanc _); cbn [fst].
+      * rewrite ncr_set_ph. destruct (evset _); [rewrite ncr_release|]; auto.
+      * destruct (evset _); cbn [fst]; [rewrite Hent|]; auto.
+    + destruct (wcanc _); cbn [fst]; [rewrite ncr_set_ph, ncr_release|rewrite Hent]; auto.
+    + destruct (fut _) as [|o|]; cbn [fst]; auto; [destruct (wcanc _); [|destruct o]; cbn [fst]|];
+        rewrite ncr_set_ph, ncr_release; auto.
+    + rewrite ncr_set_ph. auto.
+  - destruct (Nat.ltb _ _); cbn [fst]; auto.
+    assert (Hd : forall s0, ncr (calls (deliver s0 d) c) = ncr (calls s0 c)).
+    { intros s0. unfold deliver. destruct (ph (calls s0 d)); auto.
+      - destruct (orb _ _); auto. cbn. unfold upd. destruct (Nat.eqb_spec c d) as [->|]; reflexivity.
+      - destruct (abandon _); auto. destruct (fut _); auto. cbn. unfold upd. destruct (Nat.eqb_spec c d) as [->|]; reflexivity. }
+    destruct (walk _); [rewrite Hd|]; cbn; unfold upd; destruct (Nat.eqb_spec c d) as [->|]; auto.
+  - destruct (walk _); cbn [fst]; auto.
+    unfold deliver. destruct (ph (calls s d)); auto.
+    + destruct (orb _ _); auto. cbn. unfold upd. destruct (Nat.eqb_spec c d) as [->|]; auto.
+    + destruct (abandon _); auto. destruct (fut _); auto. cbn. unfold upd. destruct (Nat.eqb_spec c d) as [->|]; auto.
+  - destruct (wk s w); cbn [fst]; auto. destruct (fut _); cbn; auto.
+  - destruct (wk s w) as [|d|d| | |] eqn:Ew; cbn [fst]; auto. cbn. unfold upd.
+    destruct (Nat.eqb_spec c d) as [->|]; auto.
+  - destruct (wk s w); cbn; auto.
+  - pose proof (grant_loop_core n (lq s) (lb s) (calls s) c) as H.
+    destruct (grant_loop n (lq s) (lb s) (calls s)) as [[q b] cs]. cbn in *.
+    destruct H as (_ & _ & _ & _ & _ & _ & ->). auto.
+  - destruct (wk s w'); cbn; auto.
+  - destruct (native_cancel (calls s nc)) as [k1|] eqn:En; cbn [fst]; auto. cbn. unfold upd.
+    destruct (Nat.eqb_spec c nc) as [->|]; auto. intros H.
+    destruct (native_cancel_ncr _ _ En H); auto.
+  - destruct (can_spawn _ _); cbn [fst]; auto. rewrite ncr_set_ph, ncr_release. auto.
+  - destruct (wk s ra); cbn; auto.
+  - destruct (ph (calls s af)); cbn [fst]; auto. cbn. unfold upd. destruct (Nat.eqb_spec c af) as [->|]; auto.
+Qed.
+
+(* 5. without abandon_on_cancel the caller is not interrupted between the start of the call scope and the report -
+      by AnyIO cancellation.  The hypothesis `ncr = false` (no native Task.cancel() hit the caller inside the call
+      scope) is necessary: see rs_native_cancel_defeats_non_abandon. *)
 Theorem rs_cancel_deferred tot pr s c w :
-  reach tot pr s -> ph (calls s c) = PAwait w -> abandon (calls s c) = false ->
+  reach tot pr s -> ph (calls s c) = PAwait w -> abandon (calls s c) = false -> ncr (calls s c) = false ->
   (* the future is never cancelled *)
   fut (calls s c) <> FCancelled /\
   (* until the report lands the caller cannot run: nothing, in particular no CancelledError, is delivered *)
   (fut (calls s c) = FPending -> step s (Resume c) = (s, RRejected)) /\
-  (* no other op (cancelling any scope any number of times, redelivery, other callers, threads) moves it *)
+  (* no other op (cancelling any scope any number of times, redelivery, other callers, threads) moves it; and
+     unless the op is a native cancellation of this very caller the situation persists *)
   (forall o, o <> Resume c ->
-     ph (calls (fst (step s o)) c) = PAwait w /\ abandon (calls (fst (step s o)) c) = false) /\
+     ph (calls (fst (step s o)) c) = PAwait w /\ abandon (calls (fst (step s o)) c) = false /\
+     (o <> NativeCancel c -> ncr (calls (fst (step s o)) c) = false)) /\
   (* when it runs it receives the reported result, keeps the pending cancellation, and that cancellation is
-     raised by its next checkpoint *)
+     raised by its next checkpoint (the function's own CancelledError propagates as such instead) *)
   (forall o, fut (calls s c) = FRes o ->
      let s' := fst (step s (Resume c)) in
      snd (step s (Resume c)) = RRet o /\ (exists p, fin (calls s c) = Some p /\ o = wrap p) /\
-     ph (calls s' c) = PPostCk o /\ chain (calls s' c) = chain (calls s c) /\
-     snd (step s' (Resume c)) = (if walk (chain (calls s c)) then RCancelled else RDone)).
+     chain (calls s' c) = chain (calls s c) /\
+     (o = OCancelled -> ph (calls s' c) = PDone (DRet OCancelled false)) /\
+     (o <> OCancelled -> ph (calls s' c) = PPostCk o /\
+        snd (step s' (Resume c)) = (if walk (chain (calls s c)) then RCancelled else RDone))).
 Proof.
-  intros R Ep Ea. destruct (reach_inv _ _ _ R) as (_ & _ & HW).
-  pose proof (W_call _ _ _ _ _ HW c) as Hc. unfold callok in Hc. rewrite Ep in Hc.
+  intros R Ep Ea En. destruct (reach_inv _ _ _ R) as (_ & _ & HW).
+  pose proof (W_call _ _ _ _ _ HW c) as Hc. unfold callok in Hc. rewrite Ep in Hc. destruct Hc as [A0 Hc].
+  assert (Ewc : wcanc (calls s c) = false).
+  { destruct (wcanc (calls s c)); [|reflexivity]. specialize (A0 eq_refl). congruence. }
   refine (conj _ (conj _ (conj _ _))).
-  - intros Ef. rewrite Ef in Hc. destruct Hc. congruence.
+  - intros Ef. rewrite Ef in Hc. destruct Hc as [[A _]|A]; congruence.
   - intros Ef. cbn [step]. rewrite Ep, Ef. reflexivity.
-  - intros o Ho. destruct (step_keeps_phase s o c Ho) as [-> ->]; [rewrite Ep; discriminate|auto].
-  - intros o Ef. rewrite Ef in Hc. destruct Hc as [Hr _]. cbn zeta. cbn [step]. rewrite Ep, Ef. cbn [fst snd].
+  - intros o Ho.
+    assert (Hsf : o = SpawnFail c -> can_spawn s (calls s c) = false).
+    { intros _. unfold can_spawn. rewrite Ep. destruct (idle s); reflexivity. }
+    destruct (step_keeps_phase s o c Ho Hsf) as [-> ->]; [rewrite Ep; discriminate|].
+    refine (conj Ep (conj Ea _)). intros Hn.
+    destruct (ncr (calls (fst (step s o)) c)) eqn:E; [|reflexivity].
+    destruct (ncr_set_by_native s o c E) as [H|[H _]]; congruence.
+  - intros o Ef. rewrite Ef in Hc. destruct Hc as [Hr _]. cbn zeta. cbn [step]. rewrite Ep, Ef, Ewc.
     destruct (release_core s c c) as (_ & Ech & _).
-    assert (E1 : calls (set_ph (release s c) c (PPostCk o)) c = c_ph (calls (release s c) c) (PPostCk o)).
-    { unfold set_ph, set_calls. cbn [calls]. apply upd_same. }
-    refine (conj eq_refl (conj Hr (conj _ (conj _ _)))).
-    + rewrite E1. reflexivity.
-    + rewrite E1. cbn. exact Ech.
-    + rewrite E1. cbn [ph c_ph chain]. rewrite Ech. cbn [snd]. reflexivity.
+    assert (E1 : forall p0, calls (set_ph (release s c) c p0) c = c_ph (calls (release s c) c) p0).
+    { intros p0. unfold set_ph, set_calls. cbn [calls]. apply upd_same. }
+    assert (Ech1 : forall p0, chain (calls (set_ph (release s c) c p0) c) = chain (calls s c)).
+    { intros p0. rewrite E1. cbn. exact Ech. }
+    assert (Enext : forall o0, snd (step (set_ph (release s c) c (PPostCk o0)) (Resume c)) =
+                               (if walk (chain (calls s c)) then RCancelled else RDone)).
+    { intros o0. cbn [step]. rewrite E1. cbn [ph c_ph chain]. rewrite Ech. reflexivity. }
+    destruct o; cbn [fst snd]; refine (conj eq_refl (conj Hr (conj (Ech1 _) (conj _ _)))).
+    all: try (intros H; discriminate H).
+    all: try (intros _; split; [rewrite E1; reflexivity|apply Enext]).
+    + intros _. rewrite E1. reflexivity.
+    + intros H. exfalso. apply H. reflexivity.
 Qed.
+
+(* 5b. DOCUMENTED SCOPE (DESIGN 11.4): AnyIO shields do not stop a native Task.cancel().  Under the boolean restriction
+       `no_native_cancel_while_running` the strong reading of the bound holds: the functions executing on behalf of
+       abandon_on_cancel=False calls - whether or not anything was cancelled - all hold a token *)
+Lemma nnc_keeps_ncr_false ops : forall s,
+  (forall c, ncr (calls s c) = false) -> no_native_cancel_while_running s ops = true ->
+  forall c, ncr (calls (final step s ops) c) = false.
+Proof.
+  induction ops as [|o r IH]; intros s H0 Hb c; [apply H0|].
+  cbn [no_native_cancel_while_running] in Hb. apply andb_true_iff in Hb. destruct Hb as [Hb1 Hb2].
+  cbn. apply IH; [|exact Hb2]. intros d.
+  destruct (ncr (calls (fst (step s o)) d)) eqn:E; [|reflexivity].
+  destruct (ncr_set_by_native s o d E) as [H|[-> H]]; [rewrite H0 in H; discriminate|].
+  rewrite H in Hb1. discriminate.
+Qed.
+
+Theorem rs_nonabandon_running_le_total tot pr ops :
+  no_native_cancel_while_running (init tot pr) ops = true ->
+  let s := final step (init tot pr) ops in
+  (forall c, In c (exec s) -> abandon (calls s c) = false -> In c (lb s) /\ exists w, ph (calls s c) = PAwait w) /\
+  length (running_nonabandon s) <= length (lb s) /\
+  (length (lb s) <= total s -> length (running_nonabandon s) <= total s).
+Proof.
+  intros Hb. cbn zeta. set (s := final step (init tot pr) ops).
+  assert (R : reach tot pr s) by (now exists ops).
+  assert (Hn : forall c, ncr (calls s c) = false).
+  { apply nnc_keeps_ncr_false; [intros c; reflexivity|exact Hb]. }
+  destruct (reach_inv _ _ _ R) as (HL & _ & HW).
+  assert (H1 : forall c, In c (exec s) -> abandon (calls s c) = false ->
+               In c (lb s) /\ exists w, ph (calls s c) = PAwait w).
+  { intros c Hin Ha. apply (W_exec _ _ _ _ _ HW) in Hin. destruct Hin as [w Hw].
+    assert (Hh : hasb (wk s w) c = true) by (rewrite Hw; cbn; apply Nat.eqb_refl).
+    destruct (W_has _ _ _ _ _ HW w c Hh) as [Hnr Hp].
+    destruct (fut (calls s c)) eqn:Ef; [|exfalso; exact (Hnr o eq_refl)|].
+    - specialize (Hp eq_refl). split; [|now exists w].
+      destruct HL as (_ & _ & Hb' & _). apply Hb'. unfold holds. now rewrite Hp.
+    - destruct (fut_cancelled_cause tot pr s c R Ef) as [[A _]|A]; [congruence|rewrite Hn in A; discriminate]. }
+  assert (H2 : length (running_nonabandon s) <= length (lb s)).
+  { apply NoDup_incl_length.
+    - unfold running_nonabandon. apply NoDup_filter. apply (W_exec_nd _ _ _ _ _ HW).
+    - intros c Hc. unfold running_nonabandon in Hc. apply filter_In in Hc. destruct Hc as [Hin Ha].
+      apply negb_true_iff in Ha. apply (H1 c Hin Ha). }
+  refine (conj H1 (conj H2 _)). intros Hle. lia.
+Qed.
+
+(* ... and without the restriction it is refuted: one native cancellation of a NON-abandoned running call gives its
+   token back while its function still executes, and the next caller starts a second function under total = 1 *)
+Definition native_defeat_ops : list op :=
+  [Call 0 false; Resume 0; Resume 0; ThreadStart 0; NativeCancel 0; Resume 0;
+   Call 1 false; Resume 1; Resume 1; ThreadStart 1].
+
+Theorem rs_native_cancel_defeats_non_abandon :
+  exists ops, let s := final step (init 1 false) ops in
+    no_native_cancel_while_running (init 1 false) ops = false /\
+    total s = 1 /\ lb s = [1] /\ exec s = [1; 0] /\ running_nonabandon s = [1; 0] /\
+    abandon (calls s 0) = false /\ ph (calls s 0) = PDone DCancelled /\ ncr (calls s 0) = true /\
+    (* the function's eventual result is dropped *)
+    fut (calls (fst (step s (ThreadFinish 0 (PVal 7)))) 0) = FCancelled.
+Proof. exists native_defeat_ops. vm_compute. repeat split; reflexivity. Qed.
+
+(* non-vacuity of the restriction: a history with native cancellations in the two other phases and AnyIO cancellation of a
+   running non-abandoned call satisfies it *)
+Example ex_no_native_cancel_while_running :
+  no_native_cancel_while_running (init 1 false)
+    [Scope 0 false; Call 0 false; Resume 0; Resume 0; ThreadStart 0; CancelCaller 0 0;
+     Call 1 false; Resume 1; NativeCancel 1; Resume 1; Call 2 false; Resume 2; ThreadFinish 0 (PVal 3); Resume 0;
+     NativeCancel 2; Resume 2; Resume 0] = true.
+Proof. vm_compute. reflexivity. Qed.
 
 (* 6. check_cancelled in the thread answers for the caller's enclosing scopes *)
 Theorem check_cancelled_spec s w c :
@@ -1252,22 +1645,29 @@ Proof.
 Qed.
 
 (* 7. worker reuse *)
+Lemma setph_release_fields s c p :
+  wk (set_ph (release s c) c p) = wk s /\ idle (set_ph (release s c) c p) = idle s /\
+  nwork (set_ph (release s c) c p) = nwork s.
+Proof.
+  unfold set_ph, set_calls. cbn [wk idle nwork]. destruct (release_fields s c) as (-> & -> & -> & _). auto.
+Qed.
+
 Lemma resume_wk s c :
   wk (fst (step s (Resume c))) = wk s /\ idle (fst (step s (Resume c))) = idle s /\
   nwork (fst (step s (Resume c))) = nwork s \/
-  (fst (step s (Resume c)) = enter_scope s c /\
-   (ph (calls s c) = PLimYield \/ ph (calls s c) = PWaitLim /\ evset (calls s c) = true /\ wcanc (calls s c) = false)).
+  (fst (step s (Resume c)) = enter_scope s c /\ wcanc (calls s c) = false /\
+   (ph (calls s c) = PLimYield \/ ph (calls s c) = PWaitLim /\ evset (calls s c) = true)).
 Proof.
   cbn [step]. destruct (ph (calls s c)) as [| | | |w|o|r]; cbn [fst].
   - left; auto.
   - destruct (walk _); cbn [fst]; [left; cbn; auto|]. destruct (orb _ _); cbn; auto.
   - destruct (wcanc _) eqn:Ewc; cbn [fst].
-    + left. unfold set_ph, set_calls. cbn [wk idle nwork]. destruct (evset _); [|cbn; auto].
-      destruct (release_fields (set_lim s (lb s) (remove_c c (lq s))) c) as (-> & -> & -> & _). cbn. auto.
+    + left. destruct (evset _); [|cbn; auto].
+      apply (setph_release_fields (set_lim s (lb s) (remove_c c (lq s))) c).
     + destruct (evset _) eqn:Eev; cbn [fst]; [right; auto|left; auto].
-  - right; auto.
-  - left. destruct (fut _); cbn [fst]; auto; unfold set_ph, set_calls; cbn [wk idle nwork];
-      destruct (release_fields s c) as (-> & -> & -> & _); auto.
+  - destruct (wcanc _) eqn:Ewc; cbn [fst]; [left; apply setph_release_fields|right; auto].
+  - left. destruct (fut _) as [|o|]; cbn [fst]; auto; [destruct (wcanc _); [|destruct o]; cbn [fst]|];
+      apply setph_release_fields.
   - left. cbn. auto.
   - left; auto.
 Qed.
@@ -1275,7 +1675,8 @@ Qed.
 Theorem rs_worker_reuse tot pr s :
   reach tot pr s ->
   (* LIFO: the call scope takes the most recently idled worker, a new one only when none is idle *)
-  (forall c, ph (calls s c) = PLimYield \/ (ph (calls s c) = PWaitLim /\ evset (calls s c) = true /\ wcanc (calls s c) = false) ->
+  (forall c, wcanc (calls s c) = false ->
+             ph (calls s c) = PLimYield \/ (ph (calls s c) = PWaitLim /\ evset (calls s c) = true) ->
      let s' := fst (step s (Resume c)) in
      let w := hd (nwork s) (idle s) in
      ph (calls s' c) = PAwait w /\ wk s' w = WQueued c /\ wk s w = WFree /\ ~ In w (idle s') /\
@@ -1294,9 +1695,9 @@ Proof.
     - destruct A as [->| ->]; cbn; apply Nat.eqb_refl.
     - destruct B as [->| ->]; cbn; apply Nat.eqb_refl. }
   refine (conj _ (conj _ (conj Hu (conj _ (W_idle_nd _ _ _ _ _ HW))))).
-  - intros c Hph. cbn zeta.
+  - intros c Hwc Hph. cbn zeta.
     assert (E : fst (step s (Resume c)) = enter_scope s c).
-    { cbn [step]. destruct Hph as [->|(-> & -> & ->)]; reflexivity. }
+    { cbn [step]. rewrite Hwc. destruct Hph as [->|(-> & ->)]; reflexivity. }
     rewrite E. pose proof (enter_wk_spec s c HW) as S. cbn zeta in S.
     destruct S as (Swf & Sw & Sx & Si & Snd & Sn1 & Sn2 & Sn3).
     destruct (enter_scope_calls s c) as (w & Ec & Ew). rewrite <- Ew in *.
@@ -1307,7 +1708,7 @@ Proof.
     + intros Ei. unfold enter_scope. destruct (idle s); [contradiction|reflexivity].
   - intros o w c H1 H0.
     assert (Hnot : wk (fst (step s o)) w <> wk s w) by congruence.
-    destruct o as [d sh|d ab|d|d i|d|x|x q|x|n|x']; cbn [step] in *.
+    destruct o as [d sh|d ab|d|d i|d|x|x q|x|n|x'|nc|sf|ra|af]; cbn [step] in *.
     + exfalso. apply Hnot. destruct (ph (calls s d)); reflexivity.
     + exfalso. apply Hnot. destruct (ph (calls s d)); reflexivity.
     + destruct (resume_wk s d) as [[E _]|[E _]].
@@ -1332,6 +1733,11 @@ Proof.
     + exfalso. apply Hnot. destruct (grant_loop n (lq s) (lb s) (calls s)) as [[q b] cs]. reflexivity.
     + exfalso. destruct (wk s x') as [|d|d| | |] eqn:Ex; try (now apply Hnot).
       cbn [fst wk] in H1. unfold upd in H1. destruct (Nat.eqb_spec w x') as [->|]; [discriminate|contradiction].
+    + exfalso. apply Hnot. destruct (native_cancel _); reflexivity.
+    + exfalso. apply Hnot. destruct (can_spawn _ _); [|reflexivity]. cbn [fst].
+      destruct (setph_release_fields s sf (PPostCk OSpawn)) as (-> & _). reflexivity.
+    + exfalso. apply Hnot. destruct (wk s ra); reflexivity.
+    + exfalso. apply Hnot. destruct (ph (calls s af)); reflexivity.
   - intros w Hw. now apply (W_idle _ _ _ _ _ HW).
 Qed.
 
@@ -1341,7 +1747,7 @@ Qed.
 Lemma lost_forever s o w : W s -> wk s w = WLost -> wk (fst (step s o)) w = WLost.
 Proof.
   intros HW Hl.
-  destruct o as [d sh|d ab|d|d i|d|x|x q|x|n|x']; cbn [step].
+  destruct o as [d sh|d ab|d|d i|d|x|x q|x|n|x'|nc|sf|ra|af]; cbn [step].
   - destruct (ph (calls s d)); exact Hl.
   - destruct (ph (calls s d)); exact Hl.
   - destruct (resume_wk s d) as [[E _]|[E _]]; cbn [step] in E; rewrite E; [exact Hl|].
@@ -1359,6 +1765,11 @@ Proof.
   - destruct (grant_loop n (lq s) (lb s) (calls s)) as [[q b] cs]. exact Hl.
   - destruct (wk s x') as [|d|d| | |] eqn:Ex; try exact Hl.
     cbn [fst wk]. rewrite upd_other; [exact Hl|intros ->; congruence].
+  - destruct (native_cancel _); exact Hl.
+  - destruct (can_spawn _ _); [|exact Hl]. cbn [fst].
+    destruct (setph_release_fields s sf (PPostCk OSpawn)) as (-> & _). exact Hl.
+  - destruct (wk s ra); exact Hl.
+  - destruct (ph (calls s af)); exact Hl.
 Qed.
 
 (* ---- the pinned tree ---- *)
@@ -1443,7 +1854,7 @@ Proof. intros E1 E2 E3 [A B]. unfold Pool. rewrite E1, E2, E3. auto. Qed.
 
 Lemma step_Pool s o : W s -> Pool s -> Pool (fst (step s o)).
 Proof.
-  intros HW HP. destruct o as [d sh|d ab|d|d i|d|x|x q|x|n|x']; cbn [step].
+  intros HW HP. destruct o as [d sh|d ab|d|d i|d|x|x q|x|n|x'|nc|sf|ra|af]; cbn [step].
   - destruct (ph (calls s d)); exact HP.
   - destruct (ph (calls s d)); exact HP.
   - destruct (resume_wk s d) as [(E1 & E2 & E3)|[E _]]; cbn [step] in *.
@@ -1484,6 +1895,11 @@ Proof.
     cbn [fst]. split; cbn [wk idle nwork].
     + intros y. unfold upd. destruct (Nat.eqb_spec y x'); [discriminate|apply A].
     + intros y Hlt. unfold upd. destruct (Nat.eqb_spec y x') as [->|]; [intros _; now left|intros Hf; right; now apply B].
+  - destruct (native_cancel _); exact HP.
+  - destruct (can_spawn _ _); [|exact HP]. cbn [fst].
+    destruct (setph_release_fields s sf (PPostCk OSpawn)) as (E1 & E2 & E3). eapply Pool_same; eauto.
+  - destruct (wk s ra); exact HP.
+  - destruct (ph (calls s af)); exact HP.
 Qed.
 
 Lemma reach_Pool tot pr s : reach tot pr s -> Pool s.
@@ -1546,7 +1962,7 @@ Proof.
     + cbn [step]. destruct (walk _); reflexivity.
   - apply fold_reach.
     + intros s0 w R0. destruct (wk s0 w); try exact R0; now apply reach_step.
-    + apply fold_reach; [|exact R]. intros s0 c R0. destruct (runnable _); [now apply reach_step|exact R0].
+    + apply fold_reach; [|exact R]. intros s0 c R0. destruct (runnable _); [|exact R0]. destruct (andb _ _); now apply reach_step.
 Qed.
 
 Lemma settle_reach tot pr fuel n : forall s, reach tot pr s -> reach tot pr (settle fuel n s).
@@ -1661,3 +2077,93 @@ Proof. vm_compute. reflexivity. Qed.
 Lemma codec_states_reachable tot pr fuel n s code a b c :
   reach tot pr s -> reach tot pr (settle fuel n (fst (do_op s code a b c))).
 Proof. intros R. apply settle_reach. now apply do_op_reach. Qed.
+
+(* ------------------------------------------------------------------------------------------------ *)
+(* 9. from_thread.run(coro) with a coroutine that really waits: its task is attached to the scope handed to the worker
+      and is cancelled iff that scope or one of its VISIBLE ancestors is cancelled.  A scope that has been exited no
+      longer has visible ancestors (fix 1940035 / F42). *)
+Theorem from_thread_run_spec s w c :
+  wk s w = WExec c ->
+  step s (ThreadRunAsync w) = (s, RRT (walk (handed_visible (calls s c)))) /\
+  (* while the caller is inside the call scope the answer is that of check_cancelled: the caller's enclosing scopes *)
+  (inside (calls s c) = true -> walk (handed_visible (calls s c)) = walk (chain (calls s c))) /\
+  (* an abandoned thread (caller gone): never cancelled, whatever check_cancelled says *)
+  (abandon (calls s c) = true -> inside (calls s c) = false -> walk (handed_visible (calls s c)) = false) /\
+  (* a non-abandon call whose caller was torn away natively: only the handed scope's own flag counts *)
+  (abandon (calls s c) = false -> inside (calls s c) = false ->
+     walk (handed_visible (calls s c)) = match chain (calls s c) with (cc, _) :: _ => cc | [] => false end).
+Proof.
+  intros Ew. cbn [step]. rewrite Ew. split; [reflexivity|].
+  unfold handed_visible. refine (conj _ (conj _ _)).
+  - intros ->. apply walk_handed.
+  - intros Ea ->. unfold handed. rewrite Ea. reflexivity.
+  - intros Ea ->. unfold handed. rewrite Ea. cbn. destruct (chain (calls s c)) as [|[cc sh] r]; cbn; [reflexivity|].
+    destruct cc; [reflexivity|]. destruct sh; reflexivity.
+Qed.
+
+(* ---- non-vacuity / witnesses for the new ops ---- *)
+
+(* thread start failure: the token is back, the caller gets the RuntimeError, nothing was run *)
+Example ex_spawn_fail :
+  let s := run 1 false [Call 0 false; Resume 0; SpawnFail 0] in
+  ph (calls s 0) = PPostCk OSpawn /\ lb s = [] /\ nwork s = 0 /\ fin (calls s 0) = None /\ exec s = [] /\
+  snd (step (run 1 false [Call 0 false; Resume 0]) (SpawnFail 0)) = RRet OSpawn.
+Proof. vm_compute. repeat split; auto. Qed.
+
+(* with an idle worker no thread is started, so nothing can fail *)
+Example ex_spawn_fail_needs_new_thread :
+  snd (step (run 2 false [Call 0 false; Resume 0; Resume 0; ThreadStart 0; ThreadFinish 0 (PVal 1);
+                          Call 1 false; Resume 1]) (SpawnFail 1)) = RRejected.
+Proof. vm_compute. reflexivity. Qed.
+
+(* native cancellation in the limiter's shielded checkpoint *)
+Example ex_native_cancel_lim_yield :
+  let s := run 1 false [Call 0 false; Resume 0; NativeCancel 0; Resume 0] in
+  ph (calls s 0) = PDone DCancelled /\ lb s = [] /\ nwork s = 0 /\ ncr (calls s 0) = false.
+Proof. vm_compute. repeat split; auto. Qed.
+
+(* native cancellation while queued, (a) before and (b) after the token was granted: the token moves on *)
+Example ex_native_cancel_queued :
+  let s := run 1 false (ex_two ++ [Call 2 false; Resume 2; NativeCancel 1; Resume 1]) in
+  ph (calls s 1) = PDone DCancelled /\ lq s = [2] /\ lb s = [0].
+Proof. vm_compute. repeat split; auto. Qed.
+
+Example ex_native_cancel_granted :
+  let s := run 1 false (ex_two ++ [Call 2 false; Resume 2; ThreadFinish 0 (PVal 0); Resume 0; NativeCancel 1; Resume 1]) in
+  ph (calls s 1) = PDone DCancelled /\ lq s = [] /\ lb s = [2] /\ evset (calls s 2) = true.
+Proof. vm_compute. repeat split; auto. Qed.
+
+(* native cancellation after the report landed but before the caller ran: the result is dropped *)
+Example ex_native_cancel_after_report :
+  let s := run 1 false [Call 0 false; Resume 0; Resume 0; ThreadStart 0; ThreadFinish 0 (PVal 4); NativeCancel 0; Resume 0] in
+  ph (calls s 0) = PDone DCancelled /\ fin (calls s 0) = Some (PVal 4) /\ ncr (calls s 0) = true /\ lb s = [] /\
+  abandon (calls s 0) = false.
+Proof. vm_compute. repeat split; auto. Qed.
+
+(* payloads: the function's own CancelledError and a BaseException *)
+Example ex_payloads :
+  let s := run 2 false [Scope 0 false; Call 0 false; Resume 0; Resume 0; ThreadStart 0; CancelCaller 0 0;
+                        ThreadFinish 0 PCancelled; Resume 0;
+                        Call 1 false; Resume 1; Resume 1; ThreadStart 0; ThreadFinish 0 (PBase 9); Resume 1; Resume 1] in
+  ph (calls s 0) = PDone (DRet OCancelled false) /\ ph (calls s 1) = PDone (DRet (OBase 9) false) /\ lb s = [].
+Proof. vm_compute. repeat split; auto. Qed.
+
+(* F42 on the thread boundary: abandoned thread, caller gone; check_cancelled still raises, from_thread.run is not
+   cancelled; while the caller is inside both agree *)
+Example ex_abandoned_from_thread_run :
+  let s := run 1 false ex_abandon in
+  snd (step s (ThreadCheckCancelled 0)) = RCC true /\ snd (step s (ThreadRunAsync 0)) = RRT false /\
+  let s1 := run 2 false ex_defer in
+  snd (step s1 (ThreadCheckCancelled 0)) = RCC true /\ snd (step s1 (ThreadRunAsync 0)) = RRT true.
+Proof. vm_compute. repeat split; auto. Qed.
+
+(* the codec on the new op codes: arm a spawn failure, native cancel of a running non-abandon call, RunAsync *)
+Example ex_codec_new_ops :
+  run_case [1; 0; 3; 1;  11;0;0;0;  1;0;0;0;  1;1;0;0;  10;1;0;0;  12;1;0;0;  1;2;0;0;  6;1;7;3;  6;2;6;5]%Z =
+  [5;0;0;0;0;0;0;0;  1;0;0;0;0;1;0;0;  1;0;1;0;2;1;1;0;  5;0;0;0;2;3;1;0;  7;0;0;0;2;3;1;0;  1;0;1;0;6;3;2;0;
+   5;0;1;0;4;3;2;1;  5;0;0;0;0;7;2;2;   9;0;0;(-1);  2;0;0;0;  0;5;0;0]%Z.
+Proof. vm_compute. reflexivity. Qed.
+
+Lemma rs_running_le_total_after_drain tot pr s :
+  reach tot pr s -> length (lb s) <= total s -> length (running_live s) <= total s.
+Proof. intros R. apply (rs_running_le_total tot pr s R). Qed.
